@@ -220,6 +220,8 @@ def ref_getitem(torch, np, p_json, ix):
         return None
     if sum(1 for i in bitems if i[0] in ("L", "M")) > 1:
         return None
+    if sum(1 for i in bitems if i[0] == "E") > 1:
+        return None   # torch's treatment of a second `...` depends on the position: no claim
     if sum(1 for i in bitems if i[0] != "E") > nd - 1:
         return None
     if any(i[0] == "S" and (isinstance(i[1], str) or isinstance(i[2], str)) for i in bitems):
@@ -988,6 +990,77 @@ def gen_targeted(rng, n):
 
 
 # ------------------------------------------------------------------------------------------
+# multi-name column keys in EVERY order (read and assignment): any wrong column addressed by a key
+# `(n1, n2, …)` shows up as a wrong cell.  Exhaustive over all ordered selections of the variables of
+# two 4-variable spaces (4 resp. 8 columns) and of x,y,z,t,u (assignment), random ordered selections on spaces with up to 5
+# variables / 15 columns, 1-3 batch axes, every kind of row index.
+
+def _row_items(rng, bshape, for_set):
+    """one row-index item per batch axis, or an Ellipsis form; at most one list/mask"""
+    k = len(bshape)
+    c = rng.random()
+    if c < 0.35:
+        return [["E"]]
+    adv = [False]
+
+    def item(ax):
+        size = bshape[ax]
+        r = rng.random()
+        if r < 0.2:
+            return ["I", rng.randrange(size) - (size if rng.random() < 0.3 else 0)]
+        if r < 0.6 or adv[0]:
+            return ["S", rng.choice([None, 0, 1 if size >= 2 else 0]), rng.choice([None, size]), rng.choice([None, None, 2])]
+        adv[0] = True
+        if r < 0.85:
+            idx = rng.sample(range(size), rng.randint(1, size)) if for_set else [rng.randrange(size) for _ in range(rng.randint(1, 4))]
+            return ["L", idx, rng.choice(["list", "tensor", "array"])]
+        m = [rng.random() < 0.6 for _ in range(size)]
+        m[rng.randrange(size)] = True
+        return ["M", m, "tensor"]
+    if c < 0.5 and k >= 2:
+        return [item(0), ["E"]]
+    if c < 0.6 and k >= 2:
+        return [["E"], item(k - 1)]
+    return [item(a) for a in range(k)]
+
+
+def _multiname_step(rng, items, ns, setter, how=None):
+    bshape = [rng.randint(1, 3) for _ in range(rng.choice([1, 1, 2, 3]))]
+    p = gen_points_json(rng, items, bshape)
+    ix = dict(kind="tup", items=_row_items(rng, bshape, setter) + [["W", list(ns), how or rng.choice(["tuple", "list"])]])
+    if not setter:
+        return dict(op="pts.get", p=p, ix=ix)
+    rs = result_shape_and_space(p, ix)
+    if rs is None:
+        return dict(op="pts.get", p=p, ix=ix)
+    sh, sp = rs
+    if rng.random() < 0.15 or not sh:
+        sh = [1]
+    return dict(op="pts.set", p=p, ix=ix, q=gen_points_json(rng, sp, sh), dup=False)
+
+
+def gen_multiname(rng, n_random):
+    steps = []
+    for items in ([["x", 1], ["y", 1], ["z", 1], ["t", 1]], [["u", 2], ["x", 1], ["t", 3], ["k", 2]]):
+        names = [nm for nm, _ in items]
+        for size in range(1, 5):
+            for ns in itertools.permutations(names, size):
+                steps.append(_multiname_step(rng, items, ns, True))
+                if size >= 2:
+                    steps.append(_multiname_step(rng, items, ns, False))
+    items = [[nm, 1] for nm in ["x", "y", "z", "t", "u"]]
+    for size in range(2, 6):
+        for ns in itertools.permutations([nm for nm, _ in items], size):
+            steps.append(_multiname_step(rng, items, ns, True))
+    for _ in range(n_random):
+        items = gen_space_items(rng, 3, 5)
+        names = [nm for nm, _ in items]
+        ns = rng.sample(names, rng.randint(2, len(names)))
+        steps.append(_multiname_step(rng, items, ns, rng.random() < 0.7))
+    return steps
+
+
+# ------------------------------------------------------------------------------------------
 
 def op_class(step):
     op = step["op"]
@@ -1003,6 +1076,14 @@ def op_class(step):
 def judge(rep, step, res, reply, count=True):
     if count:
         rep.count(op_class(step))
+        if step["op"] in ("pts.set", "pts.get") and step["ix"]["kind"] == "tup" and step["ix"]["items"] \
+                and step["ix"]["items"][-1][0] == "W" and res["text"] != "err":
+            key = list(step["ix"]["items"][-1][1])
+            order = [n for n, _ in step["p"]["space"] if n in key]
+            if len(key) >= 2:
+                rep.count(f"{step['op']}:multi-name-key:" + ("storage-order" if key == order else "permuted"))
+            if len(key) >= 3 and key != order and key != order[::-1]:
+                rep.count(f"{step['op']}:multi-name-key:>=3 names non-monotone")
         rep.count("impl:rejected" if res["text"] == "err" else "impl:accepted")
     for pr in res["problems"]:
         rep.fail(pr, step, detail=dict(implementation=res["text"]))
@@ -1035,6 +1116,9 @@ def all_steps(ctx):
     out = []
     for st in gen_targeted(rng, ctx.scale(150, 1500)):
         out.append((st, exec_step(st)))
+    for st in gen_multiname(rng, ctx.scale(600, 6000)):
+        res = exec_step(st)
+        out.append((st, res))
     for st in gen_space_steps(rng, ctx.scale(700, 8000)) + gen_ctor_steps(rng, ctx.scale(200, 2500)):
         out.append((st, exec_step(st)))
     nh = ctx.scale(500, 6000)
@@ -1052,7 +1136,8 @@ def all_steps(ctx):
     return out
 
 
-RULE = ("seeded histories (4-12 operations each) on random spaces (1-5 variables, dims 1-3; 0-dim and repeated names in the "
+RULE = ("multi-name column keys in every order (exhaustive over two 4-variable spaces and five 1-dimensional variables, random up to 5 variables / 15 columns) for read and "
+        "assignment; seeded histories (4-12 operations each) on random spaces (1-5 variables, dims 1-3; 0-dim and repeated names in the "
         "Space stream), 1-3 batch axes of length 0-4, integer-valued float64 cells; index expressions from a grammar (int, slice "
         "with step, list/tensor/array, bool mask, Ellipsis, name, tuple/list of names, name slices, malformed forms); every step is "
         "compared exactly with the Lean model (space, shape, cells, or rejection) and judged by the torch-level oracles; a step "
